@@ -404,6 +404,7 @@ pub fn run_tapes(run: &mut Run, lanes: usize, cases: u32, tape_max: usize, check
                     failure_persistence: None,
                     rng_seed: RngSeed::Fixed(lane_seed(seed, prop, lane as u64)),
                     max_shrink_iters: 4000,
+                    max_shrink_time: 90_000,
                     max_global_rejects: 1,
                     ..Config::default()
                 };
